@@ -223,6 +223,15 @@ def check_pack_detector(chk, detector, n, kinds, where):
     if where in ('contract', 'abstract_contract'):
         target = b.contract('Contract' if where == 'contract' else 'Abstract', 'C', [b.cpart(b.state_var(t, 'v%d' % i)) for i, t in enumerate(types)])
         su = b.source_unit([b.supart(target)])
+    elif where in ('event_first', 'function_between', 'struct_and_using_between'):
+        # members that are not state variables before / between them: the sequence of state variables is what is judged
+        vs = [b.cpart(b.state_var(t, 'v%d' % i)) for i, t in enumerate(types)]
+        ev = b.cpart(b.event('Ev', [(b.ty('Bool'), 'f')]))
+        fnm = b.cpart(b.function('Function', 'g', [], [b.fattr('visibility', 'public')], b.block([])))
+        extra = {'event_first': [ev] + vs, 'function_between': vs[:1] + [fnm] + vs[1:],
+                 'struct_and_using_between': vs[:-1] + [b.cpart(b.struct('In', [(b.ty('Uint', 8), 'a')])), b.cpart(b.using('L', None))] + vs[-1:]}[where]
+        target = b.contract('Contract', 'C', extra)
+        su = b.source_unit([b.supart(target)])
     elif where in ('after_contract_with_1', 'after_contract_with_2', 'before_contract_with_2'):
         # another contract with one or two state variables (never packable itself) in the same file: nothing of it may reach the verdict on C
         kp, prep = size_vars(2 if where.endswith('2') else 1, 'p')
@@ -360,6 +369,8 @@ def body(chk):
     cases.append(('pack_struct_variables', 3, ['uint'], 'struct_contract'))
     cases.append(('pack_struct_variables', nmem, ['uint'], 'struct_contract'))
     cases.append(('pack_storage_variables', 3, ['uint', 'bytes'], 'abstract_contract'))
+    for w in ('event_first', 'function_between', 'struct_and_using_between'):
+        cases.append(('pack_storage_variables', 3, ['uint'], w))
     for w in ('after_contract_with_1', 'after_contract_with_2', 'before_contract_with_2'):
         cases.append(('pack_storage_variables', 3, ['uint'], w))
         cases.append(('pack_storage_variables', 2, ['uint'], w))
